@@ -394,7 +394,14 @@ func ReplayHistory(tw *TraceWriter, id int, h []Action) {
 					var err error
 					switch v := c.(type) {
 					case *jen.Statement:
-						err = v.RenderWithFile(&buf, f)
+						if id%2 == 0 {
+							// the same fragment through a *Group (obtained from a ...Func callback; no tokens of its own)
+							var g *jen.Group
+							jen.CustomFunc(jen.Options{}, func(gg *jen.Group) { gg.Add(v); g = gg })
+							err = g.RenderWithFile(&buf, f)
+						} else {
+							err = v.RenderWithFile(&buf, f)
+						}
 					default:
 						err = fmt.Errorf("fragment is not a statement")
 					}
